@@ -52,6 +52,11 @@ func run(rc *kernel.RunCtx) {
 
 		return
 	}
+	if tp.Bool(1, 300) {
+		runOnceKeyKinds(rc, k)
+
+		return
+	}
 	switch tp.Choose(5) {
 	case 0, 1:
 		runOnce(rc, k)
@@ -329,6 +334,60 @@ func runOnceManyKeys(rc *kernel.RunCtx, k *kernel.Kernel) {
 		}
 	}
 	k.Logf("once: ", kernel.Itoa(n), " keys sequentially")
+	rc.Adopt(k)
+	rc.NonTrivial = false
+}
+
+// pairKey and the values below: keys of an OnceConstructor[any, any] that
+// differ under == although they print, hash or marshal alike, next to keys
+// that are equal under == although they are different interface values.
+type pairKey struct{ a, b string }
+
+// runOnceKeyKinds is a sequential history (no scheduler) over an
+// OnceConstructor whose key type is an interface: "once per key" is once per
+// class of == on K, whatever the dynamic types of the keys.
+func runOnceKeyKinds(rc *kernel.RunCtx, k *kernel.Kernel) {
+	tp := rc.Tape
+	rc.Stats.Probe("once-key-kinds")
+	p1, p2 := new(int), new(int)
+	// classes[i] lists interface values that are one key.
+	classes := [][]any{
+		{int(1), int(1)}, {int64(1)}, {uint8(1)}, {"1"}, {float64(1), float64(1)}, {true}, {"true"},
+		{pairKey{"a", "bc"}, pairKey{"a", "bc"}}, {pairKey{"ab", "c"}}, {[2]int{1, 2}, [2]int{1, 2}}, {[2]int{2, 1}},
+		{p1, p1}, {p2}, {""}, {nil}, {int(0)}, {struct{}{}},
+	}
+	classOf := func(key any) int {
+		for i, cl := range classes {
+			if cl[0] == key {
+				return i
+			}
+		}
+
+		return -1
+	}
+	counts := make([]int, len(classes))
+	oc := syncutil.NewOnceConstructor(func(key any) any {
+		i := classOf(key)
+		counts[i]++
+
+		return &val{key: i, id: counts[i]}
+	})
+	first := make([]any, len(classes))
+	for n := tp.Range(len(classes), 4*len(classes)); n > 0; n-- {
+		i := tp.Choose(len(classes))
+		key := classes[i][tp.Choose(len(classes[i]))]
+		v := oc.Get(key)
+		if first[i] == nil {
+			first[i] = v
+		}
+		if got, _ := v.(*val); got == nil || got.key != i || counts[i] != 1 || v != first[i] {
+			k.Fail("constructed-twice", "OnceConstructor.Get", "on an OnceConstructor with an interface key type, Get of a key of class "+kernel.Itoa(i)+
+				" (dynamic type "+fmt.Sprintf("%T", key)+") ran the constructor "+kernel.Itoa(counts[i])+" times for that class or returned the result of another key")
+
+			break
+		}
+	}
+	k.Logf("once: key kinds")
 	rc.Adopt(k)
 	rc.NonTrivial = false
 }
